@@ -1,0 +1,14 @@
+//go:build verif
+
+// Contracts for package xbus (comment-only; read by /verif/govc).
+
+package xbus
+
+//@ struct pipe
+//@   immutable: p s closeQ sendQ
+//@
+//@ struct socket
+//@   lock Mutex level 20
+//@   guarded_by Mutex: closed sizeQ pipes recvQLen sendQLen recvExpire recvQ
+//@   immutable: closeQ
+//@
